@@ -171,3 +171,20 @@ Ltac zsimp :=
       end
   end.
 Ltac zlra := first [ pylra | zsimp; pylra ].
+
+(* Python's float % for a positive divisor, as a real function: C fmod brought to the sign of the divisor *)
+Definition pymod (a y : R) : R :=
+  let r := Rfmod a y in
+  if Req_EM_T r 0 then 0 else if Rlt_dec r 0 then r + y else r.
+Lemma fmod_py_pos a y : 0 < y -> fmod_py Rops a y = VFloat (pymod a y).
+Proof.
+  intros Hy. unfold fmod_py, pymod.
+  cbn [f_eqb f_fmod f_signbit f_ltb f_neg f_add Rops RopsC f0 f_of_Z].
+  rewrite (proj2 (Reqb_false y 0)) by lra.
+  destruct (Req_EM_T (Rfmod a y) 0) as [E|E].
+  - rewrite (proj2 (Reqb_true _ _) E). rewrite (proj2 (Rltb_false y 0)) by lra. reflexivity.
+  - rewrite (proj2 (Reqb_false _ _) E). rewrite (proj2 (Rltb_false y 0)) by lra.
+    destruct (Rlt_dec (Rfmod a y) 0) as [L|L].
+    + rewrite (proj2 (Rltb_true _ _) L). reflexivity.
+    + rewrite (proj2 (Rltb_false (Rfmod a y) 0)) by lra. reflexivity.
+Qed.
